@@ -52,6 +52,10 @@ def cases(draw, tier):
             if draw(st.integers(0, 3)) == 0:
                 steps.append({'op': 'avail', 'i': 0})
             req = {'op': 'lock', 'i': 0, 'body': hold(1)}
+            if draw(st.integers(0, 7)) == 0:
+                # clean-up code inside the block that fails - also while the holder is being closed or cancelled
+                nested[0] += 1
+                req['body'] = [{'op': 'finally', 'body': req['body'], 'final': [{'op': 'raise', 'eid': 500 + nested[0], 'cls': 'V'}]}]
             w = draw(st.integers(0, 9))
             if w == 0:
                 req = {'op': 'until', 'name': 'U%d_%d' % (i, len(steps)), 'notif': ['delay', draw(st.sampled_from([0.5, 1, 2]))],
